@@ -89,7 +89,7 @@ class Findings:
                     continue
             elif ops != v.op:
                 continue
-            if "exc" in sig and sig["exc"] != v.exc:
+            if "exc" in sig and (v.exc not in sig["exc"] if isinstance(sig["exc"], list) else sig["exc"] != v.exc):
                 continue
             if not set(sig.get("features", [])) <= set(v.features):
                 continue
